@@ -24,10 +24,14 @@ import (
 	"github.com/ovh/kmip-go/ttlv"
 
 	"verif/harness/core"
+	"verif/harness/refmodel"
 	"verif/harness/wire"
+	"verif/harness/xtree"
 )
 
 var encs = []string{"ttlv", "xml", "json"}
+
+var transportSeq int // workers are single-threaded
 
 func marshal(enc string, v any) []byte {
 	switch enc {
@@ -197,6 +201,23 @@ func transport(c *core.Ctx, enc string, minor int, obj kmip.Object, label string
 	if p, pv, st := core.Guard(func() { doc = marshal(enc, msg) }); p {
 		c.Violation(core.PanicSig(pv, st), fmt.Sprintf("encoder panicked (%s): %v", label, pv), map[string]any{"stack": st})
 		return nil
+	}
+	transportSeq++
+	if transportSeq%2 == 0 {
+		// every second object arrives as another implementation writes it: the wire image is produced by the harness's
+		// own writers from the PINNED layout (specification field order), not by the library's encoder
+		if exp, err := refmodel.Tree(msg, minor); err == nil {
+			switch enc {
+			case "xml":
+				doc = xtree.WriteXML(exp)
+			case "json":
+				doc = xtree.WriteJSON(exp)
+			default:
+				doc = wire.Gen(exp)
+			}
+			label += " (reference wire image)"
+			c.Count("transports.reference-wire-image", 1)
+		}
 	}
 	var back kmip.ResponseMessage
 	var err error
@@ -531,6 +552,12 @@ func keyCase(c *core.Ctx, r *core.Rand, i int) {
 				fail("C14:register-build:ecdsa-private:"+f.name, label+": builder produced no object", nil)
 				continue
 			}
+			if f.name == "Transparent" && minor >= 3 && i%2 == 1 {
+				// a KMIP 1.3+ peer labels the key block "EC" (the 1.3 name of the algorithm), not "ECDSA"
+				req.Object.(*kmip.PrivateKey).KeyBlock.CryptographicAlgorithm = kmip.CryptographicAlgorithmEC
+				label += " (algorithm EC)"
+				c.Count("ec.algorithm-EC", 1)
+			}
 			if f.name == "Transparent" {
 				kf := req.Object.(*kmip.PrivateKey).KeyBlock.KeyFormatType
 				wantKf := kmip.KeyFormatTypeTransparentECDSAPrivateKey
@@ -584,6 +611,11 @@ func keyCase(c *core.Ctx, r *core.Rand, i int) {
 		for _, f := range []fmtSpec{{"X509", kmipclient.X509}, {"Transparent", kmipclient.Transparent}} {
 			label := fmt.Sprintf("ECDSA %s public key as %s at 1.%d via %s", crv.Params().Name, f.name, minor, enc)
 			req := cl.Register().WithKeyFormat(f.kf).EcdsaPublicKey(&key.PublicKey, usage).RequestPayload()
+			if pk, ok := req.Object.(*kmip.PublicKey); ok && pk != nil && f.name == "Transparent" && minor >= 3 && i%2 == 1 {
+				pk.KeyBlock.CryptographicAlgorithm = kmip.CryptographicAlgorithmEC
+				label += " (algorithm EC)"
+				c.Count("ec.algorithm-EC", 1)
+			}
 			c.Count("transports", 1)
 			pl := transport(c, enc, minor, req.Object, label)
 			if pl == nil {
@@ -899,9 +931,9 @@ func Spec() *core.Spec {
 		Rule: "part 1: RSA keys built from fresh 128/256/512-bit primes (searched for private exponents whose encodings start with 0x00/>=0x80 or have leading zero bytes), ECDSA keys on P-224/256/384/521 with crafted and random scalars, " +
 			"symmetric keys and secrets of every length 0..64, registered through every key format the client builders offer at versions 1.0..1.4, wrapped into a Get response, sent through TTLV/XML/JSON and extracted with every accessor (mathematical equality); " +
 			"part 2: 19 object kinds/formats with every subset (<= 12 removable nodes) or random subsets of their optional nodes removed, wrapped keys and key-format mismatches; every accessor is called on whatever still decodes. " +
-			"transport buffer overwritten after decoding; 3-8 objects held across later messages of one stream; a builder refusing a named key is a violation; every second transparent RSA registration with a key never Precompute()d; distinct = distinct (key, format, version, encoding) transports and distinct degraded tree shapes",
+			"transport buffer overwritten after decoding; 3-8 objects held across later messages of one stream; a builder refusing a named key is a violation; every second transparent RSA registration with a key never Precompute()d; every second object transported as a reference wire image written from the pinned layout; EC keys labelled with algorithm EC at 1.3+; distinct = distinct (key, format, version, encoding) transports and distinct degraded tree shapes",
 		Assumptions: []string{"keys smaller than production size exercise the same code paths; a few 1024-bit moduli are included", "mathematical equality = Equal() of crypto/rsa and crypto/ecdsa, byte equality for symmetric keys and secrets"},
-		Required: []string{"transports", "accessor_calls", "held_objects", "rsa.without-precomputed-crt", "degraded_decodable", "degraded_accessor_calls", "rsa.d-leading-zero-byte", "rsa.d-starts-hi", "rsa.d-starts-lo", "ec.P-224", "ec.P-256", "ec.P-384", "ec.P-521",
+		Required: []string{"transports", "accessor_calls", "held_objects", "rsa.without-precomputed-crt", "ec.algorithm-EC", "transports.reference-wire-image", "degraded_decodable", "degraded_accessor_calls", "rsa.d-leading-zero-byte", "rsa.d-starts-hi", "rsa.d-starts-lo", "ec.P-224", "ec.P-256", "ec.P-384", "ec.P-521",
 			"ec.d-leading-zero-byte", "ec.d-full-width.P-521", "ec.d-full-width.P-256", fmt.Sprintf("ec.transparent.format-%d", kmip.KeyFormatTypeTransparentECDSAPrivateKey), fmt.Sprintf("ec.transparent.format-%d", kmip.KeyFormatTypeTransparentECPrivateKey)},
 		Families: []core.Family{
 			{Name: "keys", N: nOf(1440, 72000), Run: keyCase},
